@@ -342,7 +342,11 @@ func castRecordBatch(batch arrow.RecordBatch, targetSchema *arrow.Schema) (arrow
 			cols[i] = srcCol
 			continue
 		}
-		datum, err := compute.CastDatum(ctx, compute.NewDatum(srcCol), compute.SafeCastOptions(targetType))
+		// NewDatum takes its own reference on the column's data; drop it once
+		// the cast has produced (or failed to produce) its result.
+		srcDatum := compute.NewDatum(srcCol)
+		datum, err := compute.CastDatum(ctx, srcDatum, compute.SafeCastOptions(targetType))
+		srcDatum.Release()
 		if err != nil {
 			// Release already-cast columns
 			for j := range i {
